@@ -187,3 +187,55 @@ Proof.
   match goal with |- context [add_nodes w ti target sti ?o BNone ?d []] => assert (X := add_nodes_other o w ti target sti BNone d [] tj Hj);
     destruct (add_nodes w ti target sti o BNone d []) as [[r|e] w'] end; exact X.
 Qed.
+
+(* ---- ECrash is the class of escaped callback exceptions: only operations that invoke a
+   callback can end with it ---- *)
+Definition no_crash (r : res * world) : Prop := fst r <> Err ECrash.
+
+Lemma no_crash_add_node w ti p sti src e k b deep : no_crash (op_add_node w ti p sti src e k b deep).
+Proof. unfold no_crash, op_add_node. brk; cbn [fst]; discriminate. Qed.
+
+Lemma no_crash_add_nodes srcs : forall w ti p sti b deep acc, no_crash (add_nodes w ti p sti srcs b deep acc).
+Proof.
+  induction srcs as [|s rest IH]; intros w ti p sti b deep acc; cbn [add_nodes]; [discriminate|].
+  assert (X := no_crash_add_node w ti p sti s None None b deep).
+  destruct (op_add_node w ti p sti s None None b deep) as [[r|e] w']; [apply IH|exact X].
+Qed.
+
+Lemma no_crash_add_tree w ti p sti b deep : no_crash (op_add_tree w ti p sti b deep).
+Proof.
+  unfold op_add_tree. destruct (get_tree w ti) as [t|]; [|discriminate]. destruct (get_tree w sti) as [st|]; [|discriminate].
+  repeat match goal with |- context [if ?c then (Err _, w) else _] => destruct c; [discriminate|] end. cbv zeta.
+  match goal with |- context [add_nodes w ti p sti ?o ?bb ?d []] => assert (X := no_crash_add_nodes o w ti p sti bb d []);
+    destruct (add_nodes w ti p sti o bb d []) as [[r|e] w'] end; [discriminate|exact X].
+Qed.
+
+Lemma no_crash_copy_to w sti src ti target a b deep : no_crash (op_copy_to w sti src ti target a b deep).
+Proof.
+  unfold op_copy_to. destruct a; [apply no_crash_add_node|].
+  destruct (get_tree w ti) as [t|]; [|discriminate]. destruct (get_tree w sti) as [st|]; [|discriminate].
+  destruct (children_of src (forest_of st)) as [[|c ch]|]; [discriminate| |discriminate].
+  repeat match goal with |- context [if ?c then (Err _, w) else _] => destruct c; [discriminate|] end.
+  match goal with |- context [add_nodes w ti target sti ?o BNone ?d []] => assert (X := no_crash_add_nodes o w ti target sti BNone d []);
+    destruct (add_nodes w ti target sti o BNone d []) as [[r|e] w'] end; [discriminate|exact X].
+Qed.
+
+Definition may_invoke_callback (o : op) : bool :=
+  takes_callback o || match o with OTreeFromDict _ => true | _ => false end.
+
+Theorem crash_only_with_callback w o : fst (step w o) = Err ECrash -> may_invoke_callback o = true.
+Proof.
+  destruct o; cbn [step]; try reflexivity; intros E; exfalso; revert E.
+  - apply no_crash_add_node.
+  - apply no_crash_add_tree.
+  - apply no_crash_copy_to.
+  - unfold op_tree_copy. brk; cbn [fst]; discriminate.
+  - unfold op_node_copy. destruct (get_tree w sti) as [st|]; [|discriminate]. destruct (get_node src (forest_of st)); [|discriminate].
+    destruct (copy_f _ _ _ _). destruct (register_all _ _ _). discriminate.
+  - unfold op_move. brk; cbn [fst]; discriminate.
+  - unfold op_remove. brk; cbn [fst]; discriminate.
+  - unfold op_remove_children. brk; cbn [fst]; discriminate.
+  - unfold op_meta. brk; cbn [fst]; discriminate.
+  - discriminate.
+  - unfold op_clear, op_remove_children. brk; cbn [fst]; discriminate.
+Qed.
